@@ -375,6 +375,69 @@ def run(ctx):
 
     # ---------------- R6 integer down-cast bounds --------------------------------
     downcast_bounds(ctx, "R6.downcast-bounds")
+    # 'also after compression': the float path of compress() (shared with C05)
+    from .C05 import compress_rules
+    compress_rules(ctx, "R6", with_downcast=False)
+    # ---------------- R7 model layout of stacks ----------------------------------
+    model_layout(ctx)
+    # ---------------- R4 (cont.) first altloc = first in file order -------------
+    ff = fl.func("filter_first_altloc")
+    firsts = [st for st in ast.walk(ff) if isinstance(st, ast.Assign) and isinstance(st.value, ast.Subscript)
+              and isinstance(st.value.value, ast.Name) and isinstance(st.value.slice, ast.Constant) and st.value.slice.value == 0]
+    ctx.need(len(firsts) == 1, "filter_first_altloc: first_id = <ids>[0]")
+    seqname = firsts[0].value.value.id
+    defs = [st.value for st in ast.walk(ff) if isinstance(st, ast.Assign) and isinstance(st.targets[0], ast.Name) and st.targets[0].id == seqname]
+    ctx.need(defs, f"definition of {seqname}")
+    destroy = {"np.unique", "set", "sorted", "frozenset", "np.sort", "reversed"}
+    bad = [call_name(c) for d in defs for c in ast.walk(d) if isinstance(c, ast.Call) and (call_name(c) in destroy or
+           (isinstance(c.func, ast.Attribute) and c.func.attr in ("sort", "reverse")))]
+    src_ok = all(isinstance(d, ast.ListComp) and "altloc_ids[" in ast.unparse(d.generators[0].iter) for d in defs)
+    ctx.ob("R4.first-altloc-file-order", FILT, "filter_first_altloc", ast.unparse(defs[0])[:100], not bad and src_ok,
+           f"'first' means the altloc id that appears first in the residue's rows: the candidates must keep file order (found {bad or 'an unrecognised source'})",
+           ff.lineno)
+
+
+def model_layout(ctx):
+    """stacks are written model after model (model-major): the model number column repeats each number array_length times,
+    the coordinates are flattened from (models, atoms, 3) in C order, so per-atom columns - data AND mask - must be tiled;
+    the reader reshapes (model_count, model_length)"""
+    s = ctx.src(CONV)
+    rp = s.func("_repeat")
+    par = param_names(rp)[1]
+    exp = [c for c in calls(rp) if any(isinstance(a, ast.Name) and a.id == par for a in c.args[1:])]
+    ctx.floor("R7.expansion-calls", len(exp), 3)
+    kinds = {}
+    for c in exp:
+        what = "mask" if ".mask." in ast.unparse(c.args[0]) else "data"
+        kinds.setdefault(what, set()).add(call_name(c))
+        ctx.ob("R7.column-expansion", CONV, "_repeat", ast.unparse(c)[:80], call_name(c) == "np.tile",
+               "atom_site rows of a stack are model-major: a per-atom column is the one-model column tiled, not element-wise repeated", c.lineno)
+    ctx.ob("R7.data-mask-same-expansion", CONV, "_repeat", str({k: sorted(v) for k, v in kinds.items()}),
+           set(kinds) == {"data", "mask"} and kinds["data"] == kinds["mask"] and len(kinds["data"]) == 1,
+           "the mask of a column must be expanded exactly like its data, otherwise masked rows shift to other atoms", rp.lineno)
+    st = s.func("set_structure")
+    mn = [n for n in ast.walk(st) if isinstance(n, ast.Assign) and isinstance(n.targets[0], ast.Subscript)
+          and isinstance(n.targets[0].slice, ast.Constant) and n.targets[0].slice.value == "pdbx_PDB_model_num"]
+    rep = [n for n in mn if isinstance(n.value, ast.Call) and call_name(n.value) == "np.repeat"]
+    ok = False
+    if rep:
+        cargs = list(rep[0].value.args) + [k.value for k in rep[0].value.keywords if k.arg == "repeats"]
+        ctx.need(len(cargs) >= 2, "np.repeat(values, repeats)")
+        a0, a1 = cargs[:2]
+        ok = "stack_depth" in ast.unparse(a0) and "arange" in ast.unparse(a0) and "array_length" in ast.unparse(a1)
+    ctx.ob("R7.model-number-column", CONV, "set_structure", ast.unparse(rep[0].value)[:90] if rep else "pdbx_PDB_model_num", ok,
+           "each model number 1..depth is repeated array_length times (model-major rows)", st.lineno)
+    cr = [n for n in ast.walk(st) if isinstance(n, ast.Call) and call_name(n) in ("np.reshape",) and "coord" in ast.unparse(n.args[0])]
+    okc = bool(cr) and "stack_depth() * " in ast.unparse(cr[0].args[1]) and "array_length()" in ast.unparse(cr[0].args[1])
+    ctx.ob("R7.coord-flattening", CONV, "set_structure", ast.unparse(cr[0])[:90] if cr else "np.reshape(array.coord, ...)", okc,
+           "coordinates (models, atoms, 3) are flattened in C order to (models*atoms, 3): model-major", st.lineno)
+    gs = s.func("get_structure")
+    rs = [n for n in ast.walk(gs) if isinstance(n, ast.Call) and isinstance(n.func, ast.Attribute) and n.func.attr == "reshape"
+          and n.args and isinstance(n.args[0], ast.Tuple) and len(n.args[0].elts) == 2]
+    ctx.floor("R7.reader-reshapes", len(rs), 3)
+    for r in rs:
+        ctx.ob("R7.reader-reshape", CONV, "get_structure", ast.unparse(r.args[0]), [ast.unparse(e) for e in r.args[0].elts] == ["model_count", "model_length"],
+               "the reader splits the rows model by model: (model_count, model_length)", r.lineno)
 
 
 def downcast_bounds(ctx, rule):
@@ -446,6 +509,9 @@ def downcast_bounds(ctx, rule):
                    ok, "unsigned types may only be tried when the minimum of the array is >= 0", loop.lineno)
 
 MUTANTS = [
+    Mutant("repeat-mask-elementwise", CONV, "Data(np.tile(column.mask.array, repetitions))", "Data(np.repeat(column.mask.array, repetitions))", "R7.column-expansion"),
+    Mutant("first-altloc-sorted", FILT, "        letter_altloc_ids = [loc for loc in altloc_ids[start:stop] if loc.isalpha()]\n        if len(letter_altloc_ids) > 0:\n            first_id", "        letter_altloc_ids = np.unique([loc for loc in altloc_ids[start:stop] if loc.isalpha()])\n        if len(letter_altloc_ids) > 0:\n            first_id", "R4.first-altloc-file-order"),
+    Mutant("compress-guard-signed", COMPRESS, "np.abs(array) * factor", "array * factor", "R6.fixed-point-guard-scaled"),
     Mutant("regress-aromatic-key", CONV, '    BondType.AROMATIC: "covale",\n    BondType.COORDINATION: "metalc",', '    BondType.COORDINATION: "metalc",',
            "R1.bondtype-table-total"),
     Mutant("regress-coordination-guard", CONV, "        if bond_type == BondType.ANY or bond_type == BondType.COORDINATION:", "        if bond_type == BondType.ANY:",
